@@ -3,7 +3,7 @@
      1 VERBATIM   [`] (.+?) [`]                         (lazy, no newline inside)
      2 INVALID    (?:kw1|kw2|…) \s* \[ .*? \]            (no \b, as in the source; first `]` on the line)
      3 KEYWORD    \b (kw1|kw2|…) \b
-     4 FUNCTION   [_A-Za-z][_A-Za-z0-9.]*[_A-Za-z0-9]* \s* (?= \( )
+     4 FUNCTION   [_A-Za-z][_A-Za-z0-9.]* \s* (?= \( )                 (one star since fix 2d62135: same language, no quadratic backtracking)
      5 { name } | < name > | name, followed by the optional index group  \[ \s* (.*?) \s* \]
    `scan` is structural on the string: a `skip` counter says how many characters still belong to the
    previous match, `prev_word` carries what the leading \b needs.  No fuel anywhere.
